@@ -24,11 +24,11 @@ ID = 'C16'
 RULE = ('worlds of 2-3 tables over one content from tables.rand_spec (dims 1..4, five value kinds, metadata kinds, six id '
         'alphabets), each built by a different route {16 constructor input forms incl. caller CSR/CSC with stored zeros and '
         'unsorted indices, sort_order then inverse, filter keeping everything (ids / predicate), subsample at full depth, '
-        'transpose twice, copy, column/row access, nnz, and (30%) a CSR/CSC matrix with stored zeros / unsorted indices put in place directly}; in half of the worlds one table differs in exactly one value / id / '
+        'transpose twice, copy, column/row access, nnz, and (30%) a CSR/CSC matrix with stored zeros / unsorted indices put in place directly}; in half of the worlds one table differs in exactly one value (also by 1e-9..1e-12 or one ulp; 10% chains x,y,z with steps d,2d) / id / '
         'order of two ids / metadata entry (changed value, category on one side only, category missing, entry {} on one side) / '
         'presence of metadata / type; programs of 3-10 steps over {nnz, row/column '
         'access, iter, t[i,j], plain reads, ==, !=, descriptive_equality in both directions and on one object, copy}; '
-        'compared with the model: every verdict, every returned nnz, and format/indptr/indices/data of every touched table '
+        'compared with the model: a deep content snapshot after every accessor, every verdict, every returned nnz, and format/indptr/indices/data of every touched table '
         'after every step; every ordered pair is compared at the end and symmetry is checked on unequal pairs too; for equal-content pairs to_tsv text, json.loads(to_json) and the raw h5py dump of to_hdf5; '
         'non-trivial = at least two tables with different initial (format, sortedness, stored zeros) or a one-difference '
         'pair, and at least one comparison preceded by a representation-changing accessor; distinct by case hash')
@@ -49,7 +49,12 @@ DESC = {'Tables appear equal': 0, 'Tables are not the same type': 1, 'Observatio
         'Sample metadata are not the same': 5, 'Data elements are not the same': 6}
 ACC = {'nnz': 0, 'density': 0, 'row': 1, 'data_obs': 1, 'col': 2, 'data_samp': 2,
        'iter_obs': 3, 'iterdata_obs': 3, 'iter_samp': 4, 'iterdata_samp': 4, 'dunder_iter': 4,
-       'cell': 5, 'value_by_ids': 5, 'matrix_data': 6, 'shape': 6, 'ids': 6, 'metadata': 6}
+       'cell': 5, 'value_by_ids': 5, 'matrix_data': 6, 'shape': 6, 'ids': 6, 'metadata': 6,
+       # the writers are read-only accessors too
+       'to_tsv': 3, 'to_tsv_hdr': 3, 'to_tsv_fmt': 3, 'to_json': 8, 'to_hdf5': 7,
+       'to_dataframe': 6, 'md_to_dataframe': 6}
+EXPORT_ACC = ['to_tsv', 'to_tsv_hdr', 'to_tsv_fmt', 'to_json', 'to_hdf5', 'to_dataframe', 'md_to_dataframe']
+HDR_KEYS = ['g', 'taxonomy', 'k', 'n', 'extra', 'nosuchcategory']
 
 
 # ---------------------------------------------------------------- building tables through routes
@@ -217,7 +222,30 @@ def build_world(c):
 def layout(t):
     d = t.matrix_data
     return [{'csr': 0, 'csc': 1}.get(d.format, 9), [len(d.indptr) - 1, d.shape[1] if d.format == 'csr' else d.shape[0],
-            [int(x) for x in d.indptr], [int(x) for x in d.indices], [float(x) * T.SCALE for x in d.data]]]
+            [int(x) for x in d.indptr], [int(x) for x in d.indices], [float(x) for x in d.data]]]
+
+
+class VCoder(T.Coder):
+    """Matrix values as opaque codes: the C16 model never computes with values, it only compares
+    them and tests them for zero, so any injective coding with 0.0 <-> 0 will do.  This lets values
+    that differ by one unit in the last place, or by 1e-12, take part."""
+
+    def __init__(self, universe, values):
+        T.Coder.__init__(self, universe)
+        self.vals = sorted({float(v) for v in values if v != 0})
+        self.vcode = {v: i + 1 for i, v in enumerate(self.vals)}
+
+    def val(self, v):
+        v = float(v)
+        if v == 0:
+            return 0
+        if v not in self.vcode:
+            self.vcode[v] = len(self.vcode) + 1
+            self.vals.append(v)
+        return self.vcode[v]
+
+    def unval(self, k):
+        return 0.0 if k == 0 else self.vals[k - 1] if k - 1 < len(self.vals) else float('nan')
 
 
 def layout_tag(t):
@@ -289,9 +317,44 @@ def do_access(t, a):
         t.ids(), t.ids(axis='observation')
     elif name == 'metadata':
         t.metadata(), t.metadata(axis='observation')
+    elif name == 'to_tsv':
+        t.to_tsv()
+    elif name == 'to_tsv_hdr':
+        key = HDR_KEYS[a[3] % len(HDR_KEYS)] if a[1] % 2 else _some_key(t, a[3])
+        t.to_tsv(header_key=key, header_value='Consensus Lineage')
+    elif name == 'to_tsv_fmt':
+        t.to_tsv(header_key=_some_key(t, a[3]), header_value='md', metadata_formatter=lambda x: '; '.join(map(str, x)) if isinstance(x, list) else repr(x))
+    elif name == 'to_json':
+        t.to_json('c16')
+    elif name == 'to_hdf5':
+        h5_dump(t)
+    elif name == 'to_dataframe':
+        t.to_dataframe(dense=bool(a[3] % 2))
+    elif name == 'md_to_dataframe':
+        for ax in ('observation', 'sample'):
+            try:
+                t.metadata_to_dataframe(ax)
+            except KeyError:
+                pass                      # "<axis> does not have metadata"
     else:
         raise ValueError(name)
     return -1
+
+
+def _some_key(t, k):
+    """a metadata category that some observation has (and, with partial metadata, some lacks)"""
+    md = t.metadata(axis='observation')
+    keys = sorted({str(x) for m in (md or ()) for x in m})
+    return keys[k % len(keys)] if keys else HDR_KEYS[k % len(HDR_KEYS)]
+
+
+def hdf5_writable(spec):
+    """to_hdf5 wants one category set per axis"""
+    for md in (spec.get('omd'), spec.get('smd')):
+        if md and any(m is not None and m for m in md):
+            if len({tuple(sorted(m or {})) for m in md}) != 1:
+                return False
+    return True
 
 
 # ---------------------------------------------------------------- exports
@@ -342,10 +405,13 @@ def _h5v(x):
     return x
 
 
-def exports(t):
+def exports(t, with_hdf5=True):
     j = json.loads(t.to_json('c16'))
     j.pop('date', None)
-    return {'tsv': t.to_tsv(), 'json': j, 'hdf5': h5_dump(t)}
+    md = t.metadata(axis='observation')
+    keys = sorted({str(x) for m in (md or ()) for x in m})
+    tsv = [t.to_tsv()] + [t.to_tsv(header_key=k, header_value='md') for k in keys]
+    return {'tsv': tsv, 'json': j, 'hdf5': h5_dump(t) if with_hdf5 else None}
 
 
 # ---------------------------------------------------------------- the implementation run
@@ -366,7 +432,7 @@ def _run_impl(c):
         if k == 'acc':
             i = o[1]
             v = do_access(w[i], o[2])
-            trace.append([v, layout(w[i])])
+            trace.append([v, layout(w[i]), int(is_coherent(w[i], specs[i]))])
         elif k == 'cmp':
             _, i, j, how = o
             if how == 'eq':
@@ -388,7 +454,7 @@ def _run_impl(c):
     out = ['ok', coh, trace, pairs]
     if c.get('exports'):
         need = {i for i in range(n0) for j in range(n0) if i != j and pairs[i][j]}
-        ex = [exports(w[i]) if i in need else None for i in range(n0)]
+        ex = [exports(w[i], hdf5_writable(specs[i])) if i in need else None for i in range(n0)]
         out.append([[i, j] + [int(ex[i][k] == ex[j][k]) for k in ('tsv', 'json', 'hdf5')]
                     for i in range(n0) for j in range(i + 1, n0) if pairs[i][j]])
     return out
@@ -397,7 +463,7 @@ def _run_impl(c):
 # ---------------------------------------------------------------- wire
 def _coder(c):
     specs = [table_spec(c, k) for k in range(len(c['tables']))]
-    return T.Coder(T.spec_universe(*specs)), specs
+    return VCoder(T.spec_universe(*specs), [v for sp in specs for row in sp['mat'] for v in row]), specs
 
 
 def encode(c):
@@ -406,7 +472,7 @@ def encode(c):
     states = []
     for t, s in zip(w, specs):
         lay = layout(t)
-        lay[1][4] = [int(v) for v in lay[1][4]]
+        lay[1][4] = [cd.val(v) for v in lay[1][4]]
         dt = 0 if str(t.matrix_data.dtype) == 'float64' else 1
         states.append([cd.table(T.spec_content(s)), lay[0], lay[1], dt])
     ops = []
@@ -422,9 +488,15 @@ def encode(c):
 
 def decode(tree, c):
     coh, trace, pairs = tree
+    cd, _ = _coder(c)
+    def rep(x):
+        return [x[0], x[1][:4] + [[cd.unval(k) for k in x[1][4]]]]
     tr = []
-    for o in trace:
-        tr.append([o[0]] + [[x[0], x[1]] for x in o[1:]])
+    for o, op in zip(trace, c['prog']):
+        if op[0] == 'acc':
+            tr.append([o[0], rep(o[1]), o[2]])
+        else:
+            tr.append([o[0], rep(o[1]), rep(o[2])])
     out = ['ok', coh, tr, pairs]
     if c.get('exports'):
         n0 = len(c['tables'])
@@ -490,7 +562,11 @@ def rand_mut(rng, spec):
     if k == 'value':
         i, j = rng.randrange(r), rng.randrange(c)
         old = spec['mat'][i][j]
-        new = rng.choice([v for v in (0.0, 1.0, old + 1.0, -old, old + 1.0 / 64) if v != old])
+        cands = [0.0, 1.0, old + 1.0, -old, old + 1.0 / 64,
+                 # tiny differences: absolute 1e-9 .. 1e-12, and one unit in the last place
+                 old + 1e-9, old - 3e-10, old + 1e-12, float(np.nextafter(old, np.inf)), float(np.nextafter(old, -np.inf)),
+                 old * (1 + 2.0 ** -40)]
+        new = rng.choice([v for v in cands if v != old])
         return ['value', i, j, new]
     if k in ('oid', 'sid'):
         ids = spec['oids'] if k == 'oid' else spec['sids']
@@ -519,7 +595,7 @@ def rand_mut(rng, spec):
         return [ax, md, 'presence']
     i = rng.randrange(n)
     how = rng.choice(['value', 'value', 'extra_key', 'extra_key', 'del_key', 'empty_entry'])
-    md[i] = dict(md[i])
+    md[i] = dict(md[i] or {})
     if how == 'value' or not md[i]:
         key = rng.choice(sorted(md[i])) if md[i] else 'extra'
         old = md[i].get(key)
@@ -536,29 +612,48 @@ def rand_mut(rng, spec):
     return [ax, md, how if md[i] or how == 'empty_entry' else 'value']
 
 
-def rand_prog(rng, n_tables, r, c, length):
+def rand_prog(rng, n_tables, r, c, length, h5ok=()):
     prog = []
     n = n_tables
+    h5ok = list(h5ok) or [True] * n
     for _ in range(length):
         x = rng.random()
         if x < 0.5:
-            name = rng.choice(sorted(ACC))
-            prog.append(['acc', rng.randrange(n), [name, rng.randrange(r), rng.randrange(c), rng.randrange(4)]])
+            k = rng.randrange(n)
+            name = rng.choice(EXPORT_ACC) if rng.random() < 0.4 else rng.choice(sorted(ACC))
+            if name == 'to_hdf5' and not h5ok[k]:
+                name = 'to_tsv_hdr'
+            prog.append(['acc', k, [name, rng.randrange(r), rng.randrange(c), rng.randrange(4)]])
         elif x < 0.92:
             i = rng.randrange(n)
             j = rng.randrange(n)
             prog.append(['cmp', i, j, rng.choice(['eq', 'eq', 'ne', 'desc'])])
         elif n < 5:
-            prog.append(['copy', rng.randrange(n)])
+            k = rng.randrange(n)
+            prog.append(['copy', k])
+            h5ok.append(h5ok[k])
             n += 1
     return prog
 
 
+TINY = [1e-9, 2e-9, 3e-9, 9e-9, 16e-9, 1e-12, 0.1, 0.30000000000000004, 1.0, 1e9 + 0.5, 2.5e-7]
+
+
 def gen_case(rng):
-    if rng.random() < 0.25:
+    x = rng.random()
+    if x < 0.25:
         spec, ok = counts_spec(rng)
+    elif x < 0.45:
+        # metadata on SOME ids only (what add_metadata on a subset leaves behind)
+        spec, ok = T.rand_spec(rng, layout=False, md='partial'), False
     else:
         spec, ok = T.rand_spec(rng, layout=False), False
+    if rng.random() < 0.15:
+        # relative abundances and other values that are not multiples of 1/64
+        spec['mat'] = [[rng.choice(TINY) if v else 0.0 for v in row] for row in spec['mat']]
+        if not any(v for row in spec['mat'] for v in row):
+            spec['mat'][0][0] = 2e-9
+        ok = False
     spec['layout'] = []
     r, c = len(spec['oids']), len(spec['sids'])
     n = rng.choice([2, 2, 3])
@@ -567,10 +662,22 @@ def gen_case(rng):
         k = rng.randrange(n)
         tabs[k]['route'] = tabs[k]['route'][:1] + ['subsample_full'] + \
             [s for s in tabs[k]['route'][1:] if not (isinstance(s, list) and s[0] == 'sort_inverse')]
-    if rng.random() < 0.5:
+    y = rng.random()
+    if y < 0.1:
+        # a chain x, y, z with small pairwise steps in one cell (transitivity)
+        i, j = rng.randrange(r), rng.randrange(c)
+        v = spec['mat'][i][j]
+        d = rng.choice([7e-9, 1e-9, 4e-10, abs(v) * 2.0 ** -50 if v else 1e-300])
+        tabs = [{'route': rand_route(rng, spec, False), 'mut': None},
+                {'route': rand_route(rng, spec, False), 'mut': ['value', i, j, v + d]},
+                {'route': rand_route(rng, spec, False), 'mut': ['value', i, j, v + 2 * d]}]
+        tabs = [t for t in tabs if t['mut'] is None or t['mut'][3] != v]
+        n = len(tabs)
+    elif y < 0.55:
         k = rng.randrange(n)
         tabs[k] = {'route': rand_route(rng, spec, False), 'mut': rand_mut(rng, spec)}
-    prog = rand_prog(rng, n, r, c, rng.randint(3, 10))
+    h5ok = [hdf5_writable(mutate(spec, t['mut']) if t['mut'] else spec) for t in tabs]
+    prog = rand_prog(rng, n, r, c, rng.randint(3, 10), h5ok)
     # every world ends with all comparisons in both directions
     for i in range(n):
         for j in range(n):
@@ -603,6 +710,9 @@ def oracle(c, obs):
             origin.append(origin[o[1]])
             if not ob[0]:
                 fails.append('copy of table %d does not hold the content of its original' % o[1])
+        if o[0] == 'acc' and len(ob) > 2 and not ob[2]:
+            fails.append('read-only accessor %s changed table %d: it no longer holds the content it was built from'
+                         % (o[2][0], o[1]))
         if o[0] == 'cmp':
             i, j, how = origin[o[1]], origin[o[2]], o[3]
             eq = same[i][j]
@@ -625,6 +735,13 @@ def oracle(c, obs):
         if i < j and (j, i) in last and last[(j, i)] != v:
             fails.append('equality is not symmetric: tables %d,%d compare %s one way and %s the other'
                          % (i, j, 'equal' if v else 'unequal', 'equal' if last[(j, i)] else 'unequal'))
+    slots = sorted({i for i, _ in last} | {j for _, j in last})
+    for x in slots:
+        for y in slots:
+            for z in slots:
+                if len({x, y, z}) == 3 and last.get((x, y)) and last.get((y, z)) and last.get((x, z)) is False:
+                    fails.append('equality is not transitive: tables %d,%d and %d,%d compare equal, %d,%d do not'
+                                 % (x, y, y, z, x, z))
     if c.get('exports') and len(obs) > 4:
         for i, j, tsv, js, h5 in obs[4]:
             for name, okk in (('to_tsv', tsv), ('to_json', js), ('to_hdf5', h5)):
@@ -637,7 +754,7 @@ def nontrivial(c):
     acc_before_cmp = False
     seen_acc = False
     for o in c['prog']:
-        if o[0] == 'acc' and ACC[o[2][0]] in (0, 1, 2, 3, 4):
+        if o[0] == 'acc' and ACC[o[2][0]] in (0, 1, 2, 3, 4, 7, 8):
             seen_acc = True
         if o[0] == 'cmp' and seen_acc:
             acc_before_cmp = True
